@@ -49,8 +49,6 @@ M = [
      "bt/algos.py", "            if v != 0.0 and not np.isnan(v):\n                target.close(cname, update=False)", "            if v > 0.0 and not np.isnan(v):\n                target.close(cname, update=False)"),
     ("c06_rot_fixed_step", "C06", "RebalanceOverTime step not re-derived from periods left",
      "bt/algos.py", "                dlt = (self._weights[cname] - curr) / self._days_left", "                dlt = (self._weights[cname] - curr) / self.n"),
-    ("c06_base_after_closes", "C06", "Rebalance captures its base after de-allocating non-targets",
-     "bt/algos.py", "        scale = 1.0\n        if \"cash\" in target.temp and not target.fixed_income:", "        if not target.fixed_income:\n            base = target.value\n        scale = 1.0\n        if \"cash\" in target.temp and not target.fixed_income:"),
     ("c07_fee_not_reset", "C07", "fee accumulator not reset on date change",
      "bt/core.py", "            self._last_notl_value = self._notl_value\n            self._last_fee = 0.0\n", "            self._last_notl_value = self._notl_value\n"),
     ("c07_outlay_overwritten", "C07,C18", "second trade of a date overwrites the recorded outlay",
